@@ -3,6 +3,7 @@ import TonicModel.Spec.Reconnect
 import TonicModel.Lemmas.Reconnect
 import TonicModel.Lemmas.ReconnectErr
 import TonicModel.Lemmas.ReconnectStack
+import TonicModel.Lemmas.ReconnectNet
 /-
 C14 — A channel always answers and recovers when the peer comes back.
 Property theorems only; helper lemmas live in `Lemmas/Reconnect.lean`.
@@ -370,6 +371,28 @@ theorem C14_e2e_spec (isLazy : Bool) (outs : List Outcome) (ops : List Op) :
     Spec.Reconnect.holds isLazy outs ops (E2E.run true isLazy outs ops) = true :=
   E2E.run_holds isLazy outs ops
 
+/-- The standard entry points, `Endpoint::connect()` / `connect_lazy()`, against a real listening
+socket that a script opens and closes (`NOp.up` / `NOp.down`; loopback TCP port or unix socket):
+for EVERY script — any steps of the environment before the channel is built, any steps and calls
+after — what the model lets a caller observe satisfies every clause of the network oracle
+`Spec.Reconnect.netClauses`: each call gets a response from the server generation that is up (or
+still holds the connection), or an UNAVAILABLE error only while no server listens and no
+connection is left; the call after the server is back is served; and `Endpoint::connect()` with
+no server listening fails at once with UNAVAILABLE instead of handing out a channel. -/
+theorem C14_net_spec (isLazy : Bool) (pre post : List NOp) (hpre : ∀ op ∈ pre, op ≠ .call) :
+    (Spec.Reconnect.netClauses isLazy pre post (Net.run isLazy pre post)).all (·.2) = true :=
+  Net.run_holds isLazy pre post hpre
+
+/-- "an eagerly connected channel reports an initial failure immediately", for the standard entry
+point: whatever happened before, if no server listens when `Endpoint::connect()` is called the
+result is an UNAVAILABLE error and no channel (so no call can be issued on it). -/
+theorem C14_net_eager_initial_failure (pre post : List NOp)
+    (hdown : (pre.foldl Net.W.env { up := false, gen := 0, alive := none, aliveGen := 0 }).up = false) :
+    Net.run false pre post = { build := .error unavailable, evs := [] } := by
+  have hc := Net.world_connects (pre.foldl Net.W.env { up := false, gen := 0, alive := none, aliveGen := 0 })
+  rw [hdown] at hc
+  simp [Net.run, connectEager, E2E.answersFor, R.init, hc, drive, driveLoop, step, Net.refusedCode_eq]
+
 /-- The pinned tree (before the fix) does NOT satisfy the property: a lazy channel whose first
 attempt reaches a peer that is already gone (HTTP/2 handshake fails) hands the call an UNKNOWN
 error instead of an UNAVAILABLE-class one. Same for a connect timeout. Witnesses are in the
@@ -444,5 +467,12 @@ example : Spec.Reconnect.holds true [.refuse, .accept] [.callZero, .call]
       evs := [.call .expired 1, .call (.error 14 (some 1)) 1] } = false := by decide
 example : Spec.Reconnect.holds true [.accept, .accept] [.callDie, .call]
     (E2E.run true true [.accept, .accept] [.callDie, .call]) = true := by decide
+
+-- a server that is started later, stopped, and started again, seen from a lazy channel
+example : Net.run true [] [.call, .up, .call, .down, .call, .up, .call] =
+    { build := .ok, evs := [.error 14, .resp 1, .error 14, .resp 2] } := by decide
+-- the network oracle rejects a channel handed out by an eager connect to a dead port
+example : (Spec.Reconnect.netClauses false [] [.call] { build := .ok, evs := [.error 14] }).all (·.2) = false := by
+  decide
 
 end C14
